@@ -462,12 +462,23 @@ def s_h2_headers(vc):
     pre = [(1, SS.HEADERS_RECEIVED), (3, SS.EXPECTING_HEADERS)] if side == "client" else [(1, SS.HEADERS_RECEIVED)]
     layer, stub = mk_h2conn(vc, side, pre)
     acks, closes = install_h2conn_env(vc, False)
+    from props.C06 import install_parse_authority
+    install_parse_authority(vc)  # url.parse_authority evaluated by the real function on the concrete authority b"a.test"
+    perrs = []
+
+    def protocol_error_summary(v, self_, message, error_code=None):
+        # the body of protocol_error (GOAWAY, close, error to every open stream, streams cleared) is proved in
+        # handle_h2_event.stream_events[data_before_headers]; here only that it is the one thing that happens
+        perrs.append(message)
+        return v.gen([v.ghost("protocol_error", self_)])
+
+    vc.summary(M2 + ":Http2Connection.protocol_error", protocol_error_summary)
     val = vc.sym_bytes("field_value", 12)
     ended_v = If(ended, True, None) if vc.mode == "sym" else (True if ended else None)
     if side == "server":
         blk = [(b":method", b"GET"), (b":scheme", b"https"), (b":authority", b"a.test"), (b":path", vc.sym_bytes("path", 12)), (b"x-f", val)]
         if shape == "malformed":
-            blk = blk[1:]
+            blk = [blk[0]] + blk  # duplicate :method (the error text is then concrete; other malformed shapes are C06's)
         hdrs = vc.list([vc.lift(x) for x in blk]) if vc.mode == "sym" else blk
         ev = vc.new("h2.events:RequestReceived", stream_id=sid, headers=hdrs, stream_ended=ended_v, priority_updated=None)
         out = vc.call(M2 + ":Http2Server.handle_h2_event", layer, ev)
@@ -487,10 +498,13 @@ def s_h2_headers(vc):
     unexpected = side == "client" and pre_d.get(sid) is not SS.EXPECTING_HEADERS
     if unexpected or shape == "malformed":
         # a response nobody waits for, or a malformed block: connection error, nothing is forwarded as a message
-        check_connection_error(vc, "rejected", out, layer, [k for k, _ in pre], E("ProtocolError"))
+        vc.ensure("rejected.connection_error_and_nothing_else", len(perrs) == 1 and len(out.trace) == 1 and is_ghost(out.trace[0], "protocol_error"))
+        vc.ensure("rejected.returns_stop", vc.eq(out.result, True))
+        vc.ensure("rejected.no_stream_state_created", And(all_(same_state(vc, post.get(k), pre_d[k]) for k in pre_d), len(post) == len(pre_d)))
         return
     tr = out.trace
     vc.ensure("continues", vc.eq(out.result, False))
+    vc.ensure("no_connection_error", perrs == [])
     vc.ensure("exactly_one_headers_event", len(tr) == 1 and is_cmd(tr[0], "ReceiveHttp") and isa(tr[0].event, E("Headers")))
     if len(tr) != 1:
         return
@@ -502,7 +516,7 @@ def s_h2_headers(vc):
     hfl = l_items(hf.fields["fields"] if isinstance(hf, SObj) else hf.fields)
     vc.ensure("fields_of_this_block", And(vc.eq(hfl[0][0], b"x-f"), vc.eq(hfl[0][1], val)) if len(hfl) == 1 else False)
     vc.ensure("state.headers_received_for_this_stream", same_state(vc, post.get(sid), SS.HEADERS_RECEIVED))
-    vc.ensure("frame.other_streams_untouched", all_(same_state(vc, post.get(k), pre_d[k]) for k in pre_d if k != sid) and len(post) == len(set(pre_d) | {sid}))
+    vc.ensure("frame.other_streams_untouched", And(all_(same_state(vc, post.get(k), pre_d[k]) for k in pre_d if k != sid), len(post) == len(set(pre_d) | {sid})))
 
 
 # ---------------------------------------------------------------------------------------------
